@@ -172,6 +172,15 @@ func build(r *rand.Rand, n int) (*scenario, error) {
 }
 `}
 	}
+	// two independent statements exchanged: the fingerprints differ, the structural matcher
+	// pairs every instruction, so the pair is listed as preserved WITHOUT a fingerprint match -
+	// and has to be counted as what it is listed as
+	ord := func(first, second string) gen.Func {
+		return gen.Func{Name: "Ord0", Sig: gen.SigII, Tags: []string{"independent-statements-exchanged"}, Text: "func Ord0(a int, b int) (res int) {\n\t" + first + "\n\t" + second + "\n\treturn x*3 + y\n}\n"}
+	}
+	base.Funcs = append(base.Funcs, ord("x := a + 1", "y := b * 2"))
+	keep = append(keep, ord("y := b * 2", "x := a + 1"))
+	sc.plan["Ord0"] = "edited"
 	base.Funcs = append(base.Funcs, grid("1"))
 	if r.Intn(2) == 0 {
 		keep = append(keep, grid("1"))
@@ -429,6 +438,9 @@ func run(res *evid.Result, idx int, root string) {
 	counts := map[string]int{}
 	for _, d := range out.Functions {
 		counts[d.Status]++
+		if d.Status == models.StatusPreserved && !d.FingerprintMatch {
+			res.Count("entries_preserved_by_structure_without_fingerprint_match", 1)
+		}
 		switch d.Status {
 		case models.StatusAdded:
 			newSeen[d.Function]++
